@@ -47,7 +47,7 @@ def case_st(draw):
     square = draw(st.integers(0, 3)) == 0
     if square:
         nd = draw(st.integers(2, 4))
-        dims = list(draw(st.permutations(gen.NAMES)))[:nd]
+        dims = list(draw(st.permutations(draw(gen.names_pool()))))[:nd]
         n = draw(st.integers(1, 3))
         l = draw(gen.labels(n))
         spec = {"dims": dims, "labels": [list(l) for _ in dims], "vk": "f", "base": draw(st.integers(0, 9))}
